@@ -70,6 +70,11 @@ class C18(Prop):
             open(os.path.join(proj, name), "w").write(text)
         names = sorted(f for f in files if not f.startswith("udir/"))
         outcomes = cli.harness_lint(proj, None, sorted(files))
+        # a file whose check panics in the worker (a library field naming an undefined struct: finding T1 of C11): the pool
+        # contains the panic whatever the number of threads, the other files are reported and the exit status is 1
+        open(os.path.join(proj, "mystd.yml"), "w").write("---\nbase: lua51\nglobals:\n  widget:\n    struct: Widget\n")
+        open(os.path.join(proj, "selene.toml"), "w").write('std = "mystd"\n')
+        open(os.path.join(proj, "zpanic.lua"), "w").write("print(widget.frame.size)\n")
         items = []
         for i in range(n):
             k = rnd.choice([4, 8, 20, len(names)])
@@ -80,6 +85,8 @@ class C18(Prop):
             chosen = list(dict.fromkeys(chosen))     # a file listed twice gives two identical blocks: keep the blocks identifiable
             if rnd.random() < 0.2:
                 chosen.append("missing_%d.lua" % i)
+            if rnd.random() < 0.3:
+                chosen.insert(rnd.randrange(len(chosen) + 1), "zpanic.lua")
             walk_udir = rnd.random() < 0.35
             if walk_udir:
                 chosen.insert(rnd.randrange(len(chosen) + 1), "udir")
@@ -89,8 +96,9 @@ class C18(Prop):
                 items.append(("", {}))
                 continue
             base = cli.style_args(style)
-            rc1, out1, _ = cli.run_selene(proj, base + ["--num-threads", "1"] + chosen)
-            rc2, out2, _ = cli.run_selene(proj, base + ["--num-threads", str(threads)] + chosen)
+            # few file descriptors: files are opened by the workers, so at most one per thread is open at a time
+            rc1, out1, _ = cli.run_selene(proj, base + ["--num-threads", "1"] + chosen, nofile=112)
+            rc2, out2, _ = cli.run_selene(proj, base + ["--num-threads", str(threads)] + chosen, nofile=112)
 
             def lines_of(out):
                 ls = [l for l in out.split("\n") if l.strip()]
@@ -131,6 +139,9 @@ class C18(Prop):
             for f in chosen:
                 expanded += sorted(udir_files + udir_dirs) if f == "udir" else [f]
             for f in expanded:
+                if f == "zpanic.lua":
+                    jobs_terms.append("[]")
+                    continue
                 oc = outcomes.get(f)
                 if oc is None:
                     jobs_terms.append("[SAdd CErr 1%N]")
